@@ -852,7 +852,7 @@ _named_number = (
     (31, r"thirtyone|einundd?rei(ß|ss)ig"),
 )
 _rule_named_number = "|".join(
-    r"(?P<n_{}>{}\b)".format(n, expr) for n, expr in _named_number
+    r"(?P<n_{}>(?:{})\b)".format(n, expr) for n, expr in _named_number
 )
 _rule_named_number = r"({})\s*".format(_rule_named_number)
 
